@@ -8,7 +8,7 @@ CONSTANTS
   OwnSet = {"iter"}
   Sizes <- SizesTwo
   Durs <- DursTwo
-  ArgsSet = {"a0", "a1"}
+  ArgsSet = {"a2", "a3"}
   Pads <- PadsTwo
   SeekOffs <- Offs3
   TW = 8
